@@ -540,7 +540,7 @@ pub fn part_c13_overlap(tier: Tier) -> Part {
     }
     let cfg = DapCfg { prop: "C13", depth: if tier == Tier::Quick { 6 } else { 8 }, alphabet, wall: wall_cap(tier, 45, 1500), c13: true };
     part.bounds = json!({"symbols": cfg.alphabet.len(), "depth": cfg.depth, "wall_cap_s": cfg.wall.as_secs()});
-    part.rule = "explicit-state search over histories of initialize/launch/configurationDone/continue interleaved with set-requests of three kinds whose records share ONE instruction: setBreakpoints {none, the first statement of function ff; thorough: also a loop-body line}, setFunctionBreakpoints {none, ff} (its location is that same first statement), setInstructionBreakpoints {none, the address of that statement}; after every resume the stop must be the next arrival of the reference trace at a location of the union of the LATEST sets - clearing or replacing one kind's set must not take away the location another kind's latest set still names. The canonical state of this search also holds the order of the kinds' latest requests and whether each was empty, because which record owns the shared instruction depends on it".into();
+    part.rule = "explicit-state search over histories of initialize/launch/configurationDone/continue interleaved with set-requests of three kinds whose records share ONE instruction: setBreakpoints {none, the first statement of function ff; thorough: also a loop-body line}, setFunctionBreakpoints {none, ff} (its location is that same first statement), setInstructionBreakpoints {none, the address of that statement}; after every resume the stop must be the next arrival of the reference trace at a location of the union of the LATEST sets - clearing or replacing one kind's set must not take away the location another kind's latest set still names. The canonical state of this search also holds the order of the kinds' latest requests and whether each was empty, because which record owns the shared instruction depends on it. Six fixed witness histories (counterexamples of the thorough tier, beyond the quick depth: an earlier stop at the loop-body line, then one kind's set cleared while another kind still names the instruction) are replayed in both tiers".into();
     let ps = match progs(vec![vec![Stmt::While(2), Stmt::CallF]]) {
         Ok(p) => p,
         Err(e) => {
@@ -574,6 +574,41 @@ pub fn part_c13_overlap(tier: Tier) -> Part {
         }
         part.extra.insert("context".into(), json!({"engine":"dap","prop":"C13","exe":cx.p.built.exe,"lines":cx.lines,"fns":cx.fns,"insns":cx.insns,"fn_fallback":cx.fn_fallback}));
         explore(&cx, &cfg, &mut part, deadline, &*oracle);
+        // the counterexamples of the thorough tier (fix 42) lie beyond the quick tier's depth and
+        // need the loop-body line as an earlier stop: replayed here as fixed witness histories
+        let (l0, l1) = (Sym::SetBps(vec![(0, BpOpt::Plain)]), Sym::SetBps(vec![(1, BpOpt::Plain)]));
+        let (le, fe, f0, ie, i0) = (Sym::SetBps(vec![]), Sym::SetFnBps(vec![]), Sym::SetFnBps(vec![0]), Sym::SetInsnBps(vec![]), Sym::SetInsnBps(vec![0]));
+        let head = [Sym::Initialize, Sym::Launch];
+        let witnesses: Vec<Vec<Sym>> = vec![
+            vec![l1.clone(), i0.clone(), Sym::ConfigurationDone, l0.clone(), le.clone(), Sym::Continue],
+            vec![i0.clone(), f0.clone(), l1.clone(), Sym::ConfigurationDone, ie.clone(), le.clone(), Sym::Continue],
+            vec![f0.clone(), i0.clone(), l1.clone(), Sym::ConfigurationDone, fe.clone(), le.clone(), Sym::Continue],
+            vec![l1.clone(), Sym::ConfigurationDone, i0.clone(), l0.clone(), ie.clone(), fe.clone(), Sym::Continue],
+            vec![l1.clone(), Sym::ConfigurationDone, fe.clone(), l0.clone(), f0.clone(), fe.clone(), ie.clone(), Sym::Continue],
+            vec![l1.clone(), Sym::ConfigurationDone, l0.clone(), f0.clone(), i0.clone(), le.clone(), fe.clone(), Sym::Continue],
+        ];
+        use rayon::prelude::*;
+        let driven: Vec<(Vec<Sym>, crate::dapx::Driven)> = witnesses
+            .par_iter()
+            .map(|w| {
+                let path: Vec<Sym> = head.iter().cloned().chain(w.iter().cloned()).collect();
+                let d = crate::dapx::drive(&cx, &cfg, &path, &*oracle);
+                (path, d)
+            })
+            .collect();
+        for (path, d) in driven {
+            part.transitions += path.len() as u64;
+            part.evaluations += 1;
+            let replay = json!({"engine":"dap","prop":"C13","exe":cx.p.built.exe,"lines":cx.lines,"fns":cx.fns,"insns":cx.insns,"fn_fallback":cx.fn_fallback,"path":path,"history":path.iter().map(|a| a.label()).collect::<Vec<_>>()});
+            for f in d.findings {
+                // as everywhere in this engine: reported only if a fresh connection shows it again
+                let again = crate::dapx::drive(&cx, &cfg, &path, &*oracle);
+                if again.findings.iter().any(|g| g.sig == f.sig) {
+                    part.violate(f.sig, f.detail, replay.clone());
+                }
+            }
+        }
+        part.extra.insert("witness_histories".into(), json!(witnesses.len()));
     }
     part.traces_validated = part.transitions;
     part
